@@ -150,6 +150,19 @@ pub struct Engine {
     pub max_shrink: Option<u32>,
 }
 
+/// signatures of the known (not fixed) findings of the property being checked, and how often a
+/// check excluded a case of that exact shape (so that the search continues behind it)
+static KNOWN_SIGS: std::sync::OnceLock<Vec<String>> = std::sync::OnceLock::new();
+static KNOWN_HITS: Mutex<BTreeMap<String, u64>> = Mutex::new(BTreeMap::new());
+/// true iff `sig` is listed as a known finding; records the exclusion
+pub fn known_hit(sig: &str) -> bool {
+    let known = KNOWN_SIGS.get().map(|v| v.iter().any(|s| s == sig)).unwrap_or(false);
+    if known {
+        *KNOWN_HITS.lock().unwrap().entry(sig.to_string()).or_insert(0) += 1;
+    }
+    known
+}
+
 thread_local! {
     static PANIC_MSG: std::cell::RefCell<Option<String>> = std::cell::RefCell::new(None);
 }
@@ -194,6 +207,7 @@ impl Engine {
             .and_then(|s| serde_json::from_str::<Value>(&s).ok())
             .and_then(|v| serde_json::from_value(v["findings"].clone()).ok())
             .unwrap_or_default();
+        let _ = KNOWN_SIGS.set(known.iter().filter(|k| k.property == id && k.status == "known").map(|k| k.signature.clone()).collect());
         Engine {
             id: id.to_string(),
             tier,
@@ -483,7 +497,10 @@ impl Engine {
     /// Write evidence, print KNOWN-FINDING lines, return the process exit code.
     pub fn finish(&mut self) -> i32 {
         let wall = self.start.elapsed().as_secs_f64();
-        let hits = self.known_hits.lock().unwrap().clone();
+        let mut hits = self.known_hits.lock().unwrap().clone();
+        for (k, v) in KNOWN_HITS.lock().unwrap().iter() {
+            *hits.entry(k.clone()).or_insert(0) += *v;
+        }
         for k in self.known.iter().filter(|k| k.property == self.id && k.status == "known") {
             println!(
                 "KNOWN-FINDING: property={} {} :: {} (matched {} time(s) this run)",
